@@ -6,6 +6,7 @@ import (
 	"bytes"
 	"context"
 	"fmt"
+	"io"
 	"net/http"
 	"sync"
 	"sync/atomic"
@@ -155,8 +156,27 @@ type verifLossyCache struct {
 
 func (c *verifLossyCache) Get(key string, opts ...cache.Option) (cache.Reader, error) {
 	n := atomic.AddUint64(&c.n, 1)
-	if ((n*0x9E3779B97F4A7C15+c.salt)>>33)%c.every == 0 {
+	x := (n*0x9E3779B97F4A7C15 + c.salt) >> 33
+	if x%c.every == 0 {
 		return nil, fmt.Errorf("verif: cache entry %q lost", key)
 	}
-	return c.BlobCache.Get(key, opts...)
+	r, err := c.BlobCache.Get(key, opts...)
+	if err == nil && (x/c.every)%c.every == 0 {
+		// the entry lost its tail: every read comes back short
+		return &verifShortReader{Reader: r}, nil
+	}
+	return r, err
+}
+
+type verifShortReader struct{ cache.Reader }
+
+func (r *verifShortReader) ReadAt(p []byte, off int64) (int, error) {
+	if len(p) == 0 {
+		return r.Reader.ReadAt(p, off)
+	}
+	n, err := r.Reader.ReadAt(p[:len(p)/2], off)
+	if err == nil {
+		err = io.EOF
+	}
+	return n, err
 }
